@@ -18,18 +18,25 @@ PX == <<47, 120>>           \* "/x"
 PZ == <<47, 122, 122>>      \* "/zz"
 
 \* kinds of file a -p argument can name
-FileKinds == { "addx", "replx", "testx", "rmzz", "empty", "addpct", "push", "notpatch", "malformed", "missing", "dir" }
-IsPatchFile(k) == k \in { "addx", "replx", "testx", "rmzz", "empty", "addpct", "push" }
+FileKinds == { "addx", "replx", "testx", "rmzz", "empty", "addpct", "push", "rma", "notpatch", "malformed", "missing", "dir" }
+IsPatchFile(k) == k \in { "addx", "replx", "testx", "rmzz", "empty", "addpct", "push", "rma" }
 OpsOf(k) ==
   CASE k = "addx"  -> << [op |-> "add", path |-> PX, value |-> N1] >>
     [] k = "replx" -> << [op |-> "replace", path |-> PX, value |-> N2] >>          \* does not commute with addx
     [] k = "testx" -> << [op |-> "test", path |-> PX, value |-> N1] >>             \* passes only after addx
     [] k = "addpct" -> << [op |-> "add", path |-> <<47, 112>>, value |-> Str(<<49, 48, 48, 37, 32, 115, 37, 100>>)] >>   \* "100% s%d": output is data, not a format
+    [] k = "rma"   -> << [op |-> "remove", path |-> <<47, 97>>] >>                    \* remove /a (twice: needs the re-parse between files)
     [] k = "push"  -> << [op |-> "add", path |-> <<47, 45>>, value |-> N2] >>      \* appends to an array root: NOT idempotent (the same file twice)
     [] k = "rmzz"  -> << [op |-> "add", path |-> <<47, 107>>, value |-> N1], [op |-> "remove", path |-> PZ] >>  \* fails in its 2nd operation
     [] OTHER       -> << >>
 
+\* documents outside the domain of the operation semantics (a repeated member name, a null root, a text that is not JSON):
+\* C20 defines the expected output by the library itself ("the document that applying those patches one after another with
+\* the library produces"), so for these the replayer compares the command with the in-process fold only
+LibDefinedDocs == { Obj(<<Mem(<<97>>, Obj(<<Mem(<<98>>, N1)>>)), Mem(<<99>>, N2), Mem(<<97>>, Obj(<<Mem(<<98>>, N2)>>))>>), Null, [t |-> "malformed"] }
+LibDefined(d) == d \in LibDefinedDocs
 StdinDocs == { Obj(<<>>), Obj(<<Mem(cx, N0)>>), Arr(<<N1>>), Obj(<<Mem(<<37, 118>>, Str(<<37, 37, 32, 37, 115>>))>>) }
+             \cup LibDefinedDocs
 DefaultOpts == [neg |-> TRUE, limit |-> 0, allow |-> FALSE, ensure |-> FALSE, esc |-> TRUE]
 
 VARIABLES args,     \* the -p arguments in command-line order
@@ -64,7 +71,11 @@ LoadFile ==
      ELSE IF IsPatchFile(args[i]) THEN i' = i + 1 /\ UNCHANGED <<args, stdin, phase, cur, stdout, exit>>
      ELSE Fatal
 
-ReadStdin == phase = "stdin" /\ cur' = stdin /\ phase' = "apply" /\ UNCHANGED <<args, stdin, i, stdout, exit>>
+ReadStdin ==
+  /\ phase = "stdin"
+  /\ IF LibDefined(stdin)
+     THEN phase' = "done" /\ exit' = -2 /\ UNCHANGED <<args, stdin, i, cur, stdout>>     \* -2: outcome defined by the library
+     ELSE cur' = stdin /\ phase' = "apply" /\ UNCHANGED <<args, stdin, i, stdout, exit>>
 
 \* apply the patches in order; the first one that fails is fatal; then print
 ApplyNext ==
@@ -92,7 +103,7 @@ OutputIsFold ==
      /\ \A j \in 1..Len(args) : IsPatchFile(args[j])
      /\ LET f == FoldApply(stdin, args, 1) IN f.ok /\ stdout = [some |-> TRUE, v |-> f.v]
 FailsCleanly ==
-  (phase = "done" /\ exit # 0) =>
+  (phase = "done" /\ exit = 1) =>
      \/ \E j \in 1..Len(args) : ~IsPatchFile(args[j])
      \/ ~FoldApply(stdin, args, 1).ok
 \* order matters: the universe contains two patches that do not commute
@@ -104,7 +115,7 @@ OrderWitness ==
 Emit ==
   IF EmitOn /\ phase' = "done" THEN
     PrintT(ToJson([fam |-> "cli", files |-> args, stdin |-> stdin, exit |-> exit',
-                   out |-> stdout'.v, some |-> stdout'.some,
+                   out |-> stdout'.v, some |-> stdout'.some, libdefined |-> (exit' = -2),
                    patches |-> [j \in 1..Len(args) |-> OpsOf(args[j])]]))
   ELSE TRUE
 =============================================================================
